@@ -588,6 +588,22 @@ pub fn run_c09(cfg: &Config) -> i32 {
 		rep
 	});
 	total.merge(rep);
+	// every depth 1..300 of containers of one kind around a value that needs work
+	if !cfg!(miri) {
+		let rep = parallel(cfg.threads, 12, |variant| {
+			let mut rep = Report::new();
+			let max = if cfg.san { 140 } else { 300 };
+			for depth in 1..=max {
+				let r = uniform_nest(depth, variant);
+				c09_one(&mut rep, "uniform-nests-of-every-depth", &r, depth as u64);
+				crate::oracle::rfc8259::drop_iter(r);
+			}
+			rep.distinct_by_construction(max as u64);
+			rep.count("family:uniform-nests-of-every-depth", max as u64);
+			rep
+		});
+		total.merge(rep);
+	}
 	// arrays of records (shared key sequence, optional trailing members, empty records)
 	let n = cfg.budget(4_000, 200_000);
 	let rep = parallel(cfg.threads, 16, |i| {
@@ -1019,6 +1035,27 @@ fn c10_edit_sequences(rep: &mut Report, rng: &mut Rng, id: &str) {
 }
 
 /// A non-canonical document wrapped in `depth` levels of containers.
+/// `depth` containers of one kind around a value that needs work (members out
+/// of order, numbers not in canonical spelling): consecutive arrays with one or
+/// three items, or consecutive one- or two-member objects.
+pub fn uniform_nest(depth: usize, variant: usize) -> RVal {
+	let needs_work = RVal::Obj(vec![("z".into(), RVal::Num("1.0E1".into())), ("\u{10000}".into(), RVal::Arr(vec![RVal::Num("0.50".into())])), ("\u{e000}".into(), RVal::Null), ("a".into(), RVal::Num("100e-2".into()))]);
+	let mut v = match variant % 3 {
+		0 => needs_work,
+		1 => RVal::Arr(vec![RVal::Num("2.0".into()), needs_work]),
+		_ => RVal::Num("25.0e-1".into()),
+	};
+	for _ in 0..depth {
+		v = match variant / 3 {
+			0 => RVal::Arr(vec![v]),
+			1 => RVal::Arr(vec![RVal::Num("1e0".into()), v, RVal::Str("s".into())]),
+			2 => RVal::Obj(vec![("k".into(), v)]),
+			_ => RVal::Obj(vec![("z".into(), RVal::Num("1.50".into())), ("k".into(), v)]),
+		};
+	}
+	v
+}
+
 fn deep_wrap(rng: &mut Rng, inner: RVal, depth: usize) -> RVal {
 	let mut v = inner;
 	for d in 0..depth {
